@@ -1016,8 +1016,12 @@ func (g *c03Gen) scenario(r *VRand, rp *VRand, id int, tag string, steps int) {
 					dm = &c03Mut{truncate: []int{0, 10, 14, 20, 33, 34, 40, 53, 54}[r.Intn(9)]}
 					kind = "truncated"
 				case 1:
-					dm = &c03Mut{truncate: -1, ethProto: 0x0806}
-					kind = "ethproto"
+					if tag == "S" {
+						// Ethernet protocol field differing from skb->protocol: the direct-access path decides by the
+						// former, the byte-load path by the latter, so only generated where paths are not compared
+						dm = &c03Mut{truncate: -1, ethProto: 0x0806}
+						kind = "ethproto"
+					}
 				}
 				dfr := c03Frame(f, back, flags, true, dm)
 				dproto := f.skbProto()
@@ -1191,6 +1195,9 @@ func c03GoConst(name string) string {
 		"OUTBOUND_DIRECT":                         uintptr(consts.OutboundDirect),
 		"OUTBOUND_BLOCK":                          uintptr(consts.OutboundBlock),
 		"UdpRoutingResultCacheTtl":                uintptr(UdpRoutingResultCacheTtl.Nanoseconds()),
+		"connStateJanitorPressureEnterUsage":      uintptr(connStateJanitorPressureEnterUsage),
+		"connStateJanitorPressureExitUsage":       uintptr(connStateJanitorPressureExitUsage),
+		"connStateJanitorPressureExitRounds":      uintptr(connStateJanitorPressureExitRounds),
 		"tcpRoutingLookupRetryAttempts":           uintptr(tcpRoutingLookupRetryAttempts),
 		"tcpRoutingLookupRetryDelay":              uintptr(tcpRoutingLookupRetryDelay.Nanoseconds()),
 		"OutboundControlPlaneRouting":             uintptr(consts.OutboundControlPlaneRouting),
@@ -1226,6 +1233,7 @@ var c03ConstNames = []string{
 	"sizeof_redirect_tuple", "sizeof_redirect_entry", "sizeof_pid_pname", "connectivity_max_entries",
 	"routingHandoffTimeout", "L4ProtoType_TCP", "L4ProtoType_UDP", "IpVersionType_4", "IpVersionType_6",
 	"UdpRoutingResultCacheTtl", "tcpRoutingLookupRetryAttempts", "tcpRoutingLookupRetryDelay", "OutboundControlPlaneRouting",
+	"connStateJanitorPressureEnterUsage", "connStateJanitorPressureExitUsage", "connStateJanitorPressureExitRounds",
 }
 
 // ------------------------------------------------------------------ known witnesses (replayed on every run)
@@ -1370,6 +1378,19 @@ func TestVerifC03Gen(t *testing.T) {
 		for _, now := range []uint64{0, 1, 5000000000, 10000000000, 10000000001, 20000000000, 1 << 63} {
 			for _, last := range []uint64{0, 1, 4999999999, 5000000000, 10000000000, 1 << 62} {
 				g.st.Emit(fmt.Sprintf("hoexp %d %d", now, last), fmt.Sprintf("expired=%d", c03B2u(routingHandoffExpired(now, last))))
+			}
+		}
+		// the janitor's pressure state machine (pure function), on a grid around its thresholds
+		for _, act := range []bool{false, true} {
+			for _, below := range []int{0, 1, 2, 3, 5} {
+				for _, ov := range []bool{false, true} {
+					for _, usage := range []int{0, 49, 50, 51, 69, 70, 71, 100, 150} {
+						r := updateConnStateJanitorPressure(connStateJanitorPressureState{active: act, belowThresholdRounds: below,
+							lastUdpOverflow: 7, lastTcpOverflow: 9}, ov, usage)
+						g.st.Emit(fmt.Sprintf("press %d %d %d %d", c03B2u(act), below, c03B2u(ov), usage),
+							fmt.Sprintf("active=%d below=%d", c03B2u(r.active), r.belowThresholdRounds))
+					}
+				}
 			}
 		}
 		root := NewVRand(seed)
